@@ -50,6 +50,8 @@ Classes(cl) == L(<<L(<<cl, D(<<E("regex", S("re1"))>>)>>)>>)
 ClassesSel(cl) == L(<<L(<<cl, D(<<E("regex", S("re1")), E("select_keys", L(<<S("app")>>))>>)>>)>>)
 KeyPreserving(x, y) ==
   {C("filter_keyvals", <<x, S("app"), L(<<S("x")>>)>>), C("exclude_keyvals", <<x, S("app"), L(<<S("x"), S("s_abc")>>)>>),
+   \* values to keep / drop may themselves be lists or dicts (a category is a list)
+   C("filter_keyvals", <<x, S("app"), L(<<L(<<S("c1"), S("c2")>>), S("x")>>)>>), C("exclude_keyvals", <<x, S("title"), L(<<D(<<E("s_abc", I(1))>>), L(<<>>)>>)>>),
    C("filter_keyvals_regex", <<x, S("title"), S("re1")>>),
    C("filter_period_intersect", <<x, y>>), C("union_no_overlap", <<x, y>>), C("concat", <<x, y>>),
    C("limit_events", <<x, I(2)>>), C("sort_by_timestamp", <<x>>), C("sort_by_duration", <<x>>), C("flood", <<x>>),
@@ -137,6 +139,8 @@ Contexts(e) == {<<Stmt("RETURN", e)>>, <<Stmt("RETURN", L(<<I(7), e>>))>>, <<Stm
 TooMany == {C(c.f, Append(c.a, I(1))) : c \in Templates}
 TooFew  == {C(c.f, SubSeq(c.a, 1, Len(c.a) - 1)) : c \in {d \in Templates : Len(d.a) >= 1 /\ ~(d.f = "find_bucket" /\ Len(d.a) = 2)}}
 WrongTy == UNION {UNION {{C(c.f, [c.a EXCEPT ![j] = w]) : w \in Wrong(ArgTypes(c.f)[j])} : j \in 1..Len(ArgTypes(c.f))} : c \in Templates}
+           \* the optional second argument of find_bucket (a host name) given as something that is not a string
+           \cup {C("find_bucket", <<S("bkt"), w>>) : w \in {I(5), L(<<I(1)>>), D(<<E("s_abc", I(1))>>)}}
 NoBucket == {C("query_bucket", <<S("nobucket")>>), C("query_bucket_eventcount", <<S("nobucket")>>), C("flood", <<C("query_bucket", <<S("nobucket")>>)>>)}
 NoVar == {V("nosuchvar"), L(<<V("nosuchvar")>>), D(<<E("s_abc", V("nosuchvar"))>>), C("sort_by_timestamp", <<V("nosuchvar")>>), C("concat", <<L(<<>>), V("nosuchvar")>>)}
 NoFun == {C("no_such_function", <<>>), C("no_such_function", <<L(<<I(1)>>), S("s_comma")>>), C("flood", <<C("nosuchfn", <<QB("b1")>>)>>), L(<<C("nosuchfn", <<I(1)>>)>>)}
